@@ -624,6 +624,7 @@ func TestC05(t *testing.T) {
 	defer s.End()
 	hx.Run(s, c05Restrict, s.N(5000, 50000))
 	hx.Each(s, c05Member, true, c05MemberProduct)
+	hx.Run(s, c05Rejected, s.N(1200, 12000))
 }
 
 // ---- membership: enumeration, bits, identityref, union ------------------------------------
